@@ -163,8 +163,8 @@ def scores(rng, min_pos=0, min_neg=0, maxn=40, kinds=None, big=False):
     return pos, neg, kind
 
 
-EASY_POS = [0, 0, 0, 0, 1, 2, 3, 7, 50, 1000, 10 ** 6, 10 ** 9]  # incl. the documented use case: millions of easy samples beside a few hard ones
-EASY_NEG = [0, 0, 0, 0, 1, 2, 5, 9, 100, 999, 10 ** 7, 3 * 10 ** 9]
+EASY_POS = [0, 0, 0, 0, 1, 2, 3, 7, 50, 1000, 10 ** 6, 10 ** 9, 10 ** 10]  # incl. the documented use case: millions of easy samples beside a few hard ones
+EASY_NEG = [0, 0, 0, 0, 1, 2, 5, 9, 100, 999, 10 ** 7, 3 * 10 ** 9, 2 * 10 ** 10]
 
 
 def easy(rng, cap=None):
